@@ -1,7 +1,8 @@
 #!/usr/bin/env python3
 """Regenerate MANIFEST.json from the table below and the modules that exist.
 
-A property is claimed iff vf/props/<id>.py exists; everything else is listed
+A property is claimed iff it is listed in tools/ready.txt (and its module
+exists); everything else is listed
 under not_applicable with the reason 'not built yet' so the manifest is valid
 and honest at every commit.
 """
@@ -96,11 +97,12 @@ T = {
 
 
 def main():
+    READY = set(open(os.path.join(HERE, 'tools', 'ready.txt')).read().split())
     checks, na = [], []
     for pid in sorted(T):
         level, tech, text, note, ref = T[pid]
-        if os.path.exists(os.path.join(HERE, 'vf', 'props',
-                                       pid.lower() + '.py')):
+        if pid in READY and os.path.exists(os.path.join(
+                HERE, 'vf', 'props', pid.lower() + '.py')):
             checks.append({
                 'property_id': pid,
                 'quick_cmd': './check %s --tier quick' % pid,
